@@ -4,6 +4,7 @@
 -/
 import Driver.Codec
 import Driver.IOCase
+import Driver.RdfCodec
 import Prov.Factory
 import Std.Data.HashMap
 
@@ -327,6 +328,22 @@ def step (s : St) (j : Json) : R (St × Json) := do
       ("clusters", Json.arr (st.clusters.map (fun c => Json.mkObj [("name", Json.str c.name), ("label", Json.str c.label),
           ("url", Json.str c.url)])).toArray)])
   | "io_case" => return (s, ← ioCase j)
+  | "enc_rdf" =>
+    let c ← s.cont j "c"
+    match Prov.Rdf.encodeDocument s.h c with
+    | some gs => return (s, Json.mkObj [("graphs", Json.arr (gs.map (fun g =>
+        Json.arr #[match g.1 with | some u => Json.str u | none => Json.null, Json.arr (g.2.map encTriple).toArray])).toArray)])
+    | none => return (s, Json.mkObj [("graphs", Json.null), ("err", "unsupported")])
+  | "dec_rdf" =>
+    let nss ← (← (← j.getObjVal? "ns").getArr?).toList.mapM (fun e => do
+      let a ← e.getArr?
+      pure (⟨← a[0]!.getStr?, ← a[1]!.getStr?⟩ : Ns))
+    let graphs ← (← (← j.getObjVal? "graphs").getArr?).toList.mapM decGraphIn
+    let hints ← decHints (← j.getObjVal? "hints")
+    let hint : Prov.Rdf.Term → Option Prov.Rdf.LitHint := fun t => (hints.find? (fun p => p.1 == t)).map (·.2)
+    match Prov.Rdf.decodeDocument s.h nss graphs hint with
+    | (h, .ok d) => return (← { s with h := h }.bindCont j d, errJson none)
+    | (h, .error e) => return ({ s with h := h }, errJson (some e))
   | "dest_path" =>
     let loc ← (← j.getObjVal? "s").getStr?
     return (s, Json.mkObj [("path", match Prov.FileIO.destPath loc with | some p => Json.str p | none => Json.null)])
